@@ -140,8 +140,8 @@ class SolveAnalysis:
             leaves = [params.fields['eq_params'][k] for k in sorted(params.fields['eq_params'])] + [params.fields['nn_params']]
             # jax flattens dataclass fields in declaration order: nn_params, eq_params
             leaves = [params.fields['nn_params']] + [params.fields['eq_params'][k] for k in sorted(params.fields['eq_params'])]
-            return Pred('sym', Sym('any', *[Sym('any_isnan', fz(l)) for l in leaves]))
-        return Pred('sym', Sym('any', Sym('any_isnan', fz(params))))
+            return Pred.disj([Pred('sym', Sym('any_isnan', fz(l))) for l in leaves])
+        return Pred('sym', Sym('any_isnan', fz(params)))
 
 
 def compare_step(A, slots=None):
